@@ -485,7 +485,7 @@ def run_reentry(job, io):
 
 
 # -------------------------------------------------------------------------------------------------- depth
-DEPTH_KINDS = ('list', 'tuple', 'dict', 'odict', 'ddict', 'deque', 'nt', 'custom', 'custom_gen', 'mixed', 'selfref')
+DEPTH_KINDS = ('list', 'tuple', 'dict', 'odict', 'ddict', 'deque', 'nt', 'custom', 'custom_gen', 'mixed', 'selfref', 'composed')
 NTD = collections.namedtuple('NTD', ['a'])
 
 
@@ -534,7 +534,40 @@ def run_depth(job, io):
     def viol(cls, site, msg):
         violations.append({'cls': cls, 'site': site, 'msg': msg})
 
-    if kind == 'selfref':
+    if kind == 'composed':
+        # treespecs DEEPER than any tree can be: compose() / transform() stack legal treespecs on top of each other.
+        # Every treespec method must then either work or raise (RecursionError) — never overflow the native stack.
+        for base_kind in ('list', 'dict', 'custom', 'mixed'):
+            base = optree.tree_structure(nest(base_kind, L - 100, U.Leaf(1)), **kw)
+            for times in (1, 2, 40):
+                c = base
+                for _ in range(times):
+                    c = c.compose(base)
+                deep_leaves = [U.Leaf(i) for i in range(c.num_leaves)]
+                methods = {
+                    'repr': lambda: repr(c), 'hash': lambda: hash(c), 'eq': lambda: c == c, 'unflatten': lambda: c.unflatten(deep_leaves),
+                    'children': lambda: c.children(), 'child': lambda: c.child(0), 'one_level': lambda: c.one_level(), 'is_prefix': lambda: c.is_prefix(c),
+                    'pickle': lambda: pickle.loads(pickle.dumps(c)), 'paths': lambda: c.paths(), 'accessors': lambda: c.accessors(),
+                    'entries': lambda: c.entries(), 'transform': lambda: c.transform(lambda s: s, lambda s: s), 'walk': lambda: c.walk(deep_leaves),
+                    'traverse': lambda: c.traverse(deep_leaves), 'common_suffix': lambda: c.broadcast_to_common_suffix(c),
+                    'compose': lambda: c.compose(base), 'treespec_paths': lambda: optree.treespec_paths(c), 'treespec_accessors': lambda: optree.treespec_accessors(c),
+                    'is_suffix': lambda: c.is_suffix(base), 'le': lambda: base <= c,
+                }
+                if times >= 40:
+                    del methods['repr']  # building the string is quadratic in the depth (minutes at 37 000 levels), not a hang
+                for mname, f in methods.items():
+                    io.progress({'site': 'depth:composed:%s:x%d:%s' % (base_kind, times + 1, mname)})
+                    try:
+                        f()
+                        oc = 'ok'
+                    except RecursionError:
+                        oc = 'RE'
+                        probes['depth:RecursionError'] += 1
+                    except (ValueError, TypeError, RuntimeError, MemoryError) as e:
+                        oc = type(e).__name__
+                    keys.add('depth|composed|%s|x%d|%s|%s' % (base_kind, times + 1, mname, oc))
+                del c, deep_leaves
+    elif kind == 'selfref':
         cases = []
         a = []
         a.append(a)
